@@ -299,8 +299,24 @@ def gen_mc(rng, kind, weights=None):
             w = np.full(m, float(rng.choice([1.0, 0.25, 3.0])))
     else:
         w = np.array(weights, dtype=float)
+    wdtype = "float64"
+    if weights is None and rng.random() < 0.25:
+        # whole-number weights handed over as an INTEGER array (counts, areas in m^2): "unchanged when all weights are multiplied by a
+        # constant" holds for every magnitude, also where integer arithmetic on the weights would overflow
+        w = (rng.integers(1, 10, m) * 10 ** int(rng.integers(0, 9))).astype(float)
+        wdtype = str(rng.choice(["int64", "int32", "int64", "list-of-int"]))
     return dict(kind=kind, gen=g, spatial=s, means=means.tolist(), stddevs=sds.tolist(), weights=w.tolist(), n=n,
-                seed=int(rng.integers(0, 2 ** 31)))
+                seed=int(rng.integers(0, 2 ** 31)), wdtype=wdtype)
+
+
+def _weights_as(case, w):
+    """the weights in the container/dtype the case prescribes (the values are whole numbers whenever an integer type is prescribed)"""
+    t = case.get("wdtype", "float64")
+    if t == "float64" or any(float(x) != int(x) for x in w) or max(abs(float(x)) for x in w) >= 2 ** 31:
+        return np.array(w, dtype=float)
+    if t == "list-of-int":
+        return [int(x) for x in w]
+    return np.array([int(x) for x in w], dtype=t)
 
 
 def draws_of(case):
@@ -311,7 +327,7 @@ def draws_of(case):
 
 def impl_mc(case, weights=None, seed=None):
     import hvsrpy
-    w = np.array(case["weights"] if weights is None else weights)
+    w = _weights_as(case, case["weights"] if weights is None else weights)
     try:
         with quiet(), np.errstate(all="ignore"):
             m, s, r = hvsrpy.montecarlo_fn(np.array(case["means"]), np.array(case["stddevs"]), w,
@@ -422,13 +438,17 @@ def gen_stats(rng):
         w[1:] = 0.0                      # a single effective location
     elif k == 2:
         vals = np.round(vals)
-    return dict(kind="stats", values=vals.tolist(), weights=w.tolist())
+    wdtype = "float64"
+    if k >= 6:
+        w = (rng.integers(1, 10, m) * 10 ** int(rng.integers(0, 9))).astype(float)
+        wdtype = str(rng.choice(["int64", "int32"]))
+    return dict(kind="stats", values=vals.tolist(), weights=w.tolist(), wdtype=wdtype)
 
 
 def impl_stats(case):
     from hvsrpy import hvsr_spatial
     with np.errstate(all="ignore"):
-        m, s = hvsr_spatial._statistics(np.array(case["values"]), np.array(case["weights"]))
+        m, s = hvsr_spatial._statistics(np.array(case["values"]), _weights_as(case, case["weights"]))
     return dict(mean=float(m), std=float(s))
 
 
@@ -598,6 +618,7 @@ def run(ctx):
                  sample=dict(kind=c["kind"], gen=c["gen"], spatial=c["spatial"], generators=len(c["means"]), n=c["n"],
                              mean=im.get("mean"), std=im.get("std")))
         ctx.count(f"mc:{c['gen']}->{c['spatial']}:{c['kind']}")
+        ctx.count(f"mc:weights-as-{c.get('wdtype', 'float64')}")
         bad = compare_mc(ctx, c, im, o) + probes_mc(ctx, rng, c, im)
         for clause, detail in bad:
             ctx.violation(clause, dict(case=dict(c, what="mc"), detail=detail, impl_output=dict(mean=im.get("mean"), std=im.get("std"), err=im.get("err")),
